@@ -526,7 +526,11 @@ def _pworker(args):
     out, steps = [], 0
     for wi in idxs:
         walk = walks[wi]
-        drv.reset(g.states[g.edges[walk[0]][0]])
+        try:
+            drv.reset(g.states[g.edges[walk[0]][0]])
+        except Exception as e:          # the initial value is built through the API under test: a failure there is a finding
+            out.append((wi, 0, "setup", "building the initial state raised %r" % (e,), (None, None)))
+            continue
         for si, ei in enumerate(walk):
             fk, act, tk = g.edges[ei]
             steps += 1
